@@ -100,6 +100,8 @@ struct Inner {
     short_next: Option<usize>,
     write_blocked: bool,
     write_budget: Option<usize>,
+    vectored: bool,
+    vectored_calls: u64,
     read_waker: Option<Waker>,
     write_waker: Option<Waker>,
     read_polls: u64,
@@ -182,38 +184,74 @@ impl AsyncRead for ScriptedSock {
     }
 }
 
+/// Decides how many of `total` offered octets a write call takes (the
+/// bookkeeping common to plain and vectored writes).
+fn accept(g: &mut Inner, cx: &mut Context<'_>, total: usize) -> Poll<io::Result<usize>> {
+    g.write_polls += 1;
+    if let Some(kind) = g.write_error {
+        return Poll::Ready(Err(kind.into()))
+    }
+    if g.out.len() > OUTPUT_CAP {
+        g.flood = true;
+        return Poll::Ready(Err(io::Error::other("rtr_sched output cap")))
+    }
+    if g.write_blocked {
+        g.write_waker = Some(cx.waker().clone());
+        return Poll::Pending
+    }
+    let mut n = total;
+    if let Some(left) = g.write_budget {
+        if left == 0 {
+            g.write_waker = Some(cx.waker().clone());
+            return Poll::Pending
+        }
+        n = n.min(left);
+    }
+    if let Some(c) = g.short_next.take() { n = n.min(c.max(1)) }
+    else if let Some(c) = g.write_chunk { n = n.min(c.max(1)) }
+    if let Some(left) = g.write_budget { g.write_budget = Some(left - n) }
+    g.writes += 1;
+    Poll::Ready(Ok(n))
+}
+
 impl AsyncWrite for ScriptedSock {
     fn poll_write(
         self: Pin<&mut Self>, cx: &mut Context<'_>, buf: &[u8],
     ) -> Poll<io::Result<usize>> {
         let mut g = lock(&self.0);
-        g.write_polls += 1;
-        if let Some(kind) = g.write_error {
-            return Poll::Ready(Err(kind.into()))
-        }
-        if g.out.len() > OUTPUT_CAP {
-            g.flood = true;
-            return Poll::Ready(Err(io::Error::other("rtr_sched output cap")))
-        }
-        if g.write_blocked {
-            g.write_waker = Some(cx.waker().clone());
-            return Poll::Pending
-        }
-        let mut n = buf.len();
-        if let Some(left) = g.write_budget {
-            if left == 0 {
-                g.write_waker = Some(cx.waker().clone());
-                return Poll::Pending
-            }
-            n = n.min(left);
-        }
-        if let Some(c) = g.short_next.take() { n = n.min(c.max(1)) }
-        else if let Some(c) = g.write_chunk { n = n.min(c.max(1)) }
-        if let Some(left) = g.write_budget { g.write_budget = Some(left - n) }
+        let n = match accept(&mut g, cx, buf.len()) { Poll::Ready(Ok(n)) => n, other => return other };
         g.out.extend_from_slice(&buf[..n]);
-        g.writes += 1;
         Poll::Ready(Ok(n))
     }
+
+    /// With `set_vectored(true)` the socket gathers from all slices (under
+    /// the same chunk / short-write / budget limits, which then apply to the
+    /// call as a whole); otherwise it behaves like a writer without vectored
+    /// support: the first non-empty slice goes through `poll_write`.
+    fn poll_write_vectored(
+        self: Pin<&mut Self>, cx: &mut Context<'_>, bufs: &[io::IoSlice<'_>],
+    ) -> Poll<io::Result<usize>> {
+        let mut g = lock(&self.0);
+        g.vectored_calls += 1;
+        if !g.vectored {
+            let buf = bufs.iter().find(|b| !b.is_empty()).map_or(&[][..], |b| &**b);
+            let n = match accept(&mut g, cx, buf.len()) { Poll::Ready(Ok(n)) => n, other => return other };
+            g.out.extend_from_slice(&buf[..n]);
+            return Poll::Ready(Ok(n))
+        }
+        let total: usize = bufs.iter().map(|b| b.len()).sum();
+        let n = match accept(&mut g, cx, total) { Poll::Ready(Ok(n)) => n, other => return other };
+        let mut left = n;
+        for b in bufs {
+            if left == 0 { break }
+            let k = left.min(b.len());
+            g.out.extend_from_slice(&b[..k]);
+            left -= k;
+        }
+        Poll::Ready(Ok(n))
+    }
+
+    fn is_write_vectored(&self) -> bool { lock(&self.0).vectored }
 
     fn poll_flush(
         self: Pin<&mut Self>, _cx: &mut Context<'_>,
@@ -295,6 +333,12 @@ impl SockCtl {
         let w = { let mut g = lock(&self.0); g.write_budget = n; if n.is_some() { None } else { g.write_waker.take() } };
         if let Some(w) = w { w.wake() }
     }
+
+    /// Native vectored writes on/off (off: like a writer that only has `poll_write`).
+    pub fn set_vectored(&self, on: bool) { lock(&self.0).vectored = on }
+
+    /// Number of `poll_write_vectored` calls.
+    pub fn vectored_calls(&self) -> u64 { lock(&self.0).vectored_calls }
 
     /// A writer is parked on this socket.
     pub fn writer_parked(&self) -> bool { lock(&self.0).write_waker.is_some() }
@@ -403,6 +447,8 @@ pub enum Ev {
     WriteBudget(usize),
     /// Lifts the write budget (a parked writer is woken).
     Unblock,
+    /// The socket implements vectored writes natively from now on.
+    Vectored,
     /// Run to quiescence.
     Settle,
 }
@@ -421,6 +467,7 @@ pub fn render_script(script: &[Ev]) -> String {
             Ev::ReadChunk(k) => s.push_str(&format!("R{k}")),
             Ev::WriteBudget(k) => s.push_str(&format!("B{k}")),
             Ev::Unblock => s.push('U'),
+            Ev::Vectored => s.push('V'),
             Ev::Settle => s.push('|'),
         }
     }
@@ -441,6 +488,7 @@ pub fn parse_script(s: &str) -> Option<Vec<Ev>> {
             b'R' => Ev::ReadChunk(num(tok)?),
             b'B' => Ev::WriteBudget(num(tok)?),
             b'U' => Ev::Unblock,
+            b'V' => Ev::Vectored,
             b'|' => Ev::Settle,
             _ => return None,
         });
@@ -495,6 +543,7 @@ pub async fn play(
             Ev::ReadChunk(k) => ctl.set_read_chunk(Some(k)),
             Ev::WriteBudget(k) => ctl.set_write_budget(Some(k)),
             Ev::Unblock => ctl.set_write_budget(None),
+            Ev::Vectored => ctl.set_vectored(true),
             Ev::Settle => {
                 let q = quiesce(&[ctl]).await;
                 tr.spin |= q.spin;
